@@ -328,7 +328,7 @@ def engine_b(tier, seed, name="base", defs=None, cfgs=None):
 def engine_t(tier, seed, name="base", defs=None, cfgs=None):
     from tracerun import trace_run
     if defs is None:
-        defs = base_corpus(tier, seed)
+        defs = lex_corpus(tier, seed)
     return trace_run(name, defs, tier, seed, cfgs or ALL_CFGS)
 
 
@@ -517,7 +517,7 @@ def source_read_check(bins):
 def check_C05(tier, seed, rest):
     t0 = time.time()
     from pipeline import build_subjects, capture
-    defs = base_corpus(tier, seed)
+    defs = lex_corpus(tier, seed)
     t = engine_t(tier, seed, "base", defs, REL_CFGS)
     a = engine_a(tier, seed)
     b = engine_b(tier, seed)
